@@ -77,11 +77,12 @@ def esc_bytes(bs, rnd=None, hex_prob=0.0, interp=False):
 class Flattener:
     """AST -> token list."""
 
-    def __init__(self, rnd=None, hex_prob=0.0, underscore_prob=0.0, extra_parens=0.0):
+    def __init__(self, rnd=None, hex_prob=0.0, underscore_prob=0.0, extra_parens=0.0, slot_wild=0.0):
         self.rnd = rnd
         self.hex_prob = hex_prob
         self.underscore_prob = underscore_prob
         self.extra_parens = extra_parens
+        self.slot_wild = slot_wild
         self.slot_pos = {}     # positions of nodes inside interpolation slots (slot-relative)
 
     # ---- helpers
@@ -169,7 +170,9 @@ class Flattener:
         if t == "str":
             return [Tok('"' + esc_bytes(e["s"], self.rnd, self.hex_prob) + '"', "str")]
         if t == "istr":
-            return [Tok(self.istr(e), "str")]
+            tk = Tok(self.istr(e), "str")
+            tk.tags.append(("tok",) + tuple(e["loc"]))      # where the literal itself starts (slots count from there)
+            return [tk]
         if t == "var":
             return [self.w(bytes(e["name"]).decode())]
         if t == "binop":
@@ -238,15 +241,30 @@ class Flattener:
 
     def istr(self, e):
         out = ['$"']
-        for p in e["parts"]:
+        dec_off = 0            # offset of the next piece in the unescaped string, in characters
+        for pidx, p in enumerate(e["parts"]):
             if p["t"] == "lit":
                 out.append(esc_bytes(p["s"], self.rnd, self.hex_prob))
+                dec_off += len(bytes(p["s"]).decode("utf-8"))
             elif p["t"] == "slot":
                 sub = Flattener()
                 toks = sub.expr(p["e"])
-                text, pos = Layout(None).write(toks)
+                # a slot may span lines (a break after a continuation token): positions inside it are counted
+                # from the start of the slot
+                lay = Layout(None)
+                if self.rnd is not None and self.slot_wild and self.rnd.random() < self.slot_wild \
+                        and not any(tk.kind == "end" for tk in toks):
+                    lay = Layout(random.Random(self.rnd.random()), wild=0.9, comments=False, header=False)
+                text, pos = lay.write(toks)
                 self.slot_pos.update(pos)
                 self.slot_pos.update(sub.slot_pos)
+                # where the slot is: in the unescaped string, and in the source text relative to the literal
+                # (line offset, 0-based column of the `$` in that line / in the literal)
+                so_far = "".join(out)
+                key = (tuple(e["loc"]), pidx + 1)
+                self.slot_pos[("off",) + key] = dec_off
+                self.slot_pos[("rel",) + key] = (so_far.count("\n"), len(so_far) - (so_far.rfind("\n") + 1))
+                dec_off += len(text) + 3
                 out.append("${" + text + "}")
             else:
                 raise ValueError("cannot render " + p["t"])
@@ -318,16 +336,18 @@ class Flattener:
         return toks
 
 
-COMMENT_TEXTS = ["", " c", " a é 世 # ;", "#", " if x { \"", "\t$"]
+COMMENT_TEXTS = ["", " c", " a é 世 # ;", "#", " if x { \"", "\t$", " a\r+ 5", "\r"]
 
 
 class Layout:
     """Writes a token list. rnd=None gives the canonical layout: one statement
     per line, four-space indentation, single spaces."""
 
-    def __init__(self, rnd, wild=0.3):
+    def __init__(self, rnd, wild=0.3, comments=True, header=True):
         self.rnd = rnd
         self.wild = wild
+        self.comments = comments       # (no comments inside interpolation slots: their text may hold a quote)
+        self.header = header
 
     def write(self, toks):
         rnd = self.rnd
@@ -355,8 +375,8 @@ class Layout:
                 emit(rnd.choice([" ", "  ", "\t", " \t ", "\r"]))
 
         # the file may start with comment lines (an interpreter line among them): they are lines like any other
-        if rnd is not None and rnd.random() < 0.3:
-            emit(rnd.choice(["#!/usr/bin/env seed\n", "#! x\n", "# é 世\n\n", "\n", "#!\n#!/x\n", "#!/usr/bin/seed -x\r\n"]))
+        if rnd is not None and self.header and rnd.random() < 0.3:
+            emit(rnd.choice(["#!/usr/bin/env seed\n", "#! x\n", "# é 世\n\n", "\n", "#!\n#!/x\n", "#!/usr/bin/seed -x\r\n", "\r\n", "\r\n\r\n", "# a\rb\n"]))
         prev = None
         at_line_start = True
         n = len(toks)
@@ -403,7 +423,7 @@ class Layout:
                     if prev.text in CONTINUATION and r < self.wild * 0.5:
                         # a line break after a continuation token
                         emit(rnd.choice(["\n", " \n", " # k" + rnd.choice(COMMENT_TEXTS) + "\n",
-                                         "\n\n", "\r\n"]))
+                                         "\n\n", "\r\n"] if self.comments else ["\n", " \n", "\n\n", "\r\n"]))
                         emit(" " * rnd.randrange(0, 9))
                     elif need or r < 0.6 and not tight or r < self.wild * 0.4:
                         emit(rnd.choice([" ", " ", " ", "  ", "\t", " \r "]))
@@ -437,7 +457,7 @@ def render(body, seed=None, **opts):
     rnd = random.Random(seed) if seed is not None else None
     fl = Flattener(rnd, hex_prob=opts.get("hex_prob", 0.0),
                    underscore_prob=opts.get("underscore_prob", 0.0),
-                   extra_parens=opts.get("extra_parens", 0.0))
+                   extra_parens=opts.get("extra_parens", 0.0), slot_wild=opts.get("slot_wild", 0.25))
     toks = fl.program(body)
     text, pos = Layout(rnd, wild=opts.get("wild", 0.3)).write(toks)
     return text, pos, fl.slot_pos
